@@ -214,6 +214,9 @@ def session_anomalies(case, out):
     if out.get('disconnect') not in (None, 'ok') and not [k for k in allf if k >= out['sessions'][0]['calls'] and k < out.get('disconnect_calls', 0)]:
         res.append(('disconnect-fails:%s' % out['disconnect'], 'Database.disconnect() between two sessions raised %s although none of its calls failed (%s)' % (out['disconnect'], tag)))
     for ev in out.get('lock_events', []):
+        if ev[0] == 'self-deadlock':
+            res.append(('session-deadlock:%s' % where, 'the session asks for the provider lock while holding it itself: it would wait forever (%s, faults [%s] = %s)' % (tag, faults, where)))
+            break
         res.append(('provider-lock-%s:%s' % (ev[0], where), 'the provider lock was released %s (%s, faults [%s] = %s)' %
                     ('while it was not held (released twice)' if ev[0] == 'release-of-unlocked-lock' else 'by a thread that does not hold it (lock of %s taken away)' % (ev[2] if len(ev) > 2 else '?'), tag, faults, where)))
         break
@@ -478,6 +481,7 @@ def coq_thread_case(case, out):
     state and the same driver-call trace per thread."""
     eff = [e for e in out['effective'] if e[3] not in ('skipped', 'noop')]
     first_shape, sched, expect = {}, [], []
+    books = {}
     # shape of the next session of each thread, looking forward from each exit
     for idx, (t, op, arg, outcome, _lk) in enumerate(eff):
         if op == 'enter':
@@ -489,12 +493,27 @@ def coq_thread_case(case, out):
                 if t2 == t and op2 == 'enter':
                     nxt = arg2; break
             sched.append('(%d, AExit %s %s)' % (t, cb(op == 'exit_exc'), SHAPES[nxt]))
+            if outcome != 'blocked': books.pop(t, None)
             if outcome == 'blocked': expect.append('(Some Blocked)')
             elif op == 'exit_exc': expect.append('None')
             elif outcome in OUT: expect.append('(Some %s)' % OUT[outcome])
             else: raise Unmodelled('outcome %r of exit' % outcome)
         else:
-            sched.append('(%d, AOp %s)' % (t, OPS[op]))
+            # locking lookups: what the session cache of this thread already holds decides whether SQL is issued (as in model_ops);
+            # skipped enter / exit steps of a blocked thread merge its sessions, so the same row can be asked for twice
+            book = books.setdefault(t, {'loaded': set(), 'locked': set()})
+            if op in LOCKING:
+                mop = '(OGetFU %s %s)' % (cb(arg in book['loaded']), cb(arg in book['locked']))
+                if outcome == 'ok': book['loaded'].add(arg); book['locked'].add(arg)
+            else:
+                mop = OPS[op]
+                if outcome == 'ok' and op == 'load': book['loaded'].add(arg)
+                if outcome == 'ok' and op == 'qforupd': book['loaded'].add(arg); book['locked'].add(arg)
+                if op in ('commit', 'dbcommit') and outcome != 'blocked':
+                    if outcome == 'ok': book['locked'].clear()
+                    else: book['loaded'].clear(); book['locked'].clear()
+                if op in ('rollback', 'dbrollback') and outcome != 'blocked': book['loaded'].clear(); book['locked'].clear()
+            sched.append('(%d, AOp %s)' % (t, mop))
             if outcome == 'blocked': expect.append('(Some Blocked)')
             elif outcome in OUT: expect.append('(Some %s)' % OUT[outcome])
             else: raise Unmodelled('outcome %r of %s' % (outcome, op))
